@@ -80,5 +80,8 @@ package h264reader
 //@ ensures err == nil ==> ret0 != nil && len(ret0.Data) >= 1
 //@ ensures err == nil ==> ret0.UnitType == NalUnitType(ret0.Data[0] & 0x1F) && ret0.RefIdc == (ret0.Data[0] & 0x60) >> 5
 //@ ensures err == nil && !old(reader.includeSEI) ==> ret0.UnitType != NalUnitTypeSEI
+// The scanning loop is left only because the stream gave out (read error or short read) or
+// with a complete, non-empty unit that is not to be skipped.
+//@ loop 0 break err != nil || n != 1 || (len(reader.nalBuffer) >= 1 && (reader.includeSEI || NalUnitType(reader.nalBuffer[0] & 0x1F) != NalUnitTypeSEI))
 //@ loop 0 invariant reader.stream != nil && reader.includeSEI == old(reader.includeSEI)
 //@ loop 0 invariant (forall k int :: int(ghost(rdpos)) - len(reader.readBuffer) <= k && k < int(ghost(rdpos)) ==> reader.readBuffer[k - (int(ghost(rdpos)) - len(reader.readBuffer))] == ufbyte("stream", k)) && ghost(rdpos) < 1<<62 && uint64(len(reader.readBuffer)) <= ghost(rdpos) && !sameobj(reader.readBuffer, reader.tmpReadBuf) && (reader.nalBuffer == nil || !sameobj(reader.nalBuffer, reader.readBuffer))
